@@ -14,6 +14,12 @@ func Child(args []string) int {
 	case "c10":
 		n, _ := strconv.Atoi(args[2])
 		return ChildC10(args[1], n)
+	case "c15":
+		seed, _ := strconv.ParseUint(args[1], 10, 64)
+		shard, _ := strconv.Atoi(args[2])
+		from, _ := strconv.Atoi(args[3])
+		n, _ := strconv.Atoi(args[4])
+		return ChildC15(seed, shard, from, n, args[5])
 	case "c14lib":
 		seed, _ := strconv.ParseUint(args[1], 10, 64)
 		rounds, _ := strconv.Atoi(args[2])
